@@ -106,6 +106,10 @@ def foreign_formal(d):
 
 
 def classify(f, ops):
+    if "xsi-name" in (f.get("feats") or []) and "PROV-JSON" in f.get("what", ""):
+        return "C10-F7"
+    if "xsd-uri-without-hash" in (f.get("feats") or []) and "PROV-XML" in f.get("what", ""):
+        return "C10-F6"
     if "foreign-formal" in (f.get("feats") or []) and f.get("what", "").startswith("the specification reader recovers another content"):
         return "C10-F5"
     c = c01.classify(f, ops)
